@@ -70,3 +70,6 @@ package errorhandler
 //@   ensures httpClass(err) == 4 ==> wh.arg1[old(wh.n)] == fvinit(old(h.opts.onPreconditionError), errorWriter$1, code)
 //@   ensures httpClass(err) == 5 ==> wh.arg1[old(wh.n)] == fvinit(old(h.opts.onNoRuleError), errorWriter$1, code)
 //@   ensures httpClass(err) == 7 ==> wh.arg1[old(wh.n)] == fvinit(old(h.opts.onInternalError), errorWriter$1, code)
+
+//@ iface (ErrorHandler).HandleError
+//@   logged herr
